@@ -231,6 +231,29 @@ func Run(peer *Peer, torEvent chan<- TorEvent, torDone <-chan struct{},
 		}
 	}()
 
+	// this must be set up before anything that can make us return
+	// early, the torrent relies on being told that we're gone.
+	defer func() {
+		close(peer.Done)
+
+		peer.requests.Clear(true, func(index uint32) {
+			drop(peer, index)
+		})
+		writeEvent(peer, TorPeerBitmap{peer, peer.bitmap.Copy(), false})
+		writeEvent(peer, TorPeerGoaway{peer})
+		for len(peer.events) > 0 {
+			select {
+			case peer.torEvent <- peer.events[0]:
+				peer.events = peer.events[1:]
+				if len(peer.events) == 0 {
+					peer.events = nil
+				}
+			case <-peer.torDone:
+				return
+			}
+		}
+	}()
+
 	peer.reqQ = 128
 	peer.time = time.Now()
 	peer.writeTime = time.Now()
@@ -329,27 +352,6 @@ func Run(peer *Peer, torEvent chan<- TorEvent, torDone <-chan struct{},
 	ticker := time.NewTicker(2 * time.Second)
 	defer ticker.Stop()
 	defer peer.stopUpload()
-
-	defer func() {
-		close(peer.Done)
-
-		peer.requests.Clear(true, func(index uint32) {
-			drop(peer, index)
-		})
-		writeEvent(peer, TorPeerBitmap{peer, peer.bitmap.Copy(), false})
-		writeEvent(peer, TorPeerGoaway{peer})
-		for len(peer.events) > 0 {
-			select {
-			case peer.torEvent <- peer.events[0]:
-				peer.events = peer.events[1:]
-				if len(peer.events) == 0 {
-					peer.events = nil
-				}
-			case <-peer.torDone:
-				return
-			}
-		}
-	}()
 
 	for {
 
